@@ -49,15 +49,18 @@ def _run(ctx, chk):
         pushes = [x for x in qev if x[0] == "push"]
         chk.require(len(pushes) == 1 and len(qev) == 1, "P3", b.defp, b.span, "add_order queue events: %s" % [x[0] for x in qev], describe_path(r))
     # P4
-    b, res, _ = L.paths("match_order")
     hits = {}
-    for r in res:
+    # match_order and every other discovered mutator that pops (update_order removes by id: a same-price amend keeps
+    # its place through the ticket left behind, see P5)
+    popping = ["match_order"] + [n for n in L.mutators() if "::" in n]
+    for b, res, _ in [L.paths(n) for n in popping]:
+      for r in res:
         if r.kind not in ("return", "backedge"):
             continue
         for segname, lo, hi in segments(r):
             ids = set(id(e) for e in r.trace[lo:hi])
             qev = [x for x in L.queue_events(r.trace, r.facts) if id(x[2]) in ids]
-            taken = [o for k, o, e in qev if k == "take"]
+            taken = [o for k, o, e in qev if k == "take" and e[1] == "Q.pop"]
             for k, o, e in qev:
                 if k != "push" or not taken:
                     continue
@@ -74,9 +77,11 @@ def _run(ctx, chk):
         chk.fail("P4", key, e[5], "a maker that survives a fill without being replenished from hidden quantity is re-queued with push, "
                  "i.e. at the TAIL: it loses its time priority to every order behind it (A(10),B(10): match 4, match 4 trades B while A shows 6)",
                  describe_path(r))
-    if not hits:
+    b, res, _ = L.paths("match_order")
+    if b.defp not in hits:
         chk.ok("P4", b.defp, b.span)
     rule_stale_tickets(ctx, chk, Q, "P5", "C04")
+    LR.rule_no_remove_then_push_in_extras(ctx, chk, L, "P5")
     # P6 forward drain
     bad = set()
     for r in res:
